@@ -230,8 +230,8 @@ def cases(tier, seed):
     syms = pdb_symbols()
     for lo in range(0, len(syms), 4):
         cs.append({"kind": "cif-symbols", "lo": lo, "hi": lo + 4})
-    for lo in range(0, len(syms), 4):
-        cs.append({"kind": "pdb", "lo": lo, "hi": lo + 4, "tier": tier})
+    for lo in range(len(syms) - 1, -1, -1):  # one symbol per case, the costly cubic groups first
+        cs.append({"kind": "pdb", "lo": lo, "hi": lo + 1, "tier": tier})
     return cs
 
 
